@@ -8,8 +8,8 @@ from d42.validation import Formatter, ValidationException, ValidationResult, for
 
 from .. import model as M
 from ..codec import src, unsrc
-from ..common import shard_items, tname
-from ..runner import Acc, parallel
+from ..common import shard_items, short_lived, tname
+from ..runner import Acc, parallel, parallel_fresh
 from ..terms import show, size, try_build, unique_subterms
 from ..universe import universe
 from ..values import ZOO, inject
@@ -104,8 +104,32 @@ def worker(shard, nshards, tier, seed):
     return acc
 
 
+def reuse_worker(shard, nshards, tier, seed):
+    """Short-lived schemas (see common.short_lived): every witness and a few hostile values against
+    a schema that is dropped before the next one of the same shape is built."""
+    acc = Acc()
+    hostile = ZOO[::6]
+
+    def examine(t, s):
+        cases = [(w, w) for w in M.witnesses(t)[:6]] + [(z, z) for z in hostile]
+        for w in M.witnesses(t)[:1]:
+            for z in hostile[:3]:
+                cases += [(z, v) for v in inject(w, z)[:6]]
+        for z, v in cases:
+            acc.count("short_lived_validations")
+            kind = check_value(s, v)
+            if kind:
+                acc.violation(f"C08|{kind}|{show(t)}|{zname(z)}",
+                              {"term": src(t), "term_show": show(t), "value": src(v),
+                               "zoo_member": src(z), "kind": kind})
+
+    short_lived(list(universe(tier)) + enrich(tier), shard, nshards, acc, examine)
+    return acc
+
+
 def run(tier, seed):
     acc = parallel(worker, tier, seed, warm_pass=True)
+    acc.merge(parallel_fresh(reuse_worker, tier, seed, nshards=16))
     cov = {
         "states": acc.n["schemas"],
         "transitions": acc.n["validations"],
@@ -116,6 +140,10 @@ def run(tier, seed):
                 "position); non-trivial = the hostile value sits inside an otherwise conforming value",
         "exhaustive": True,
         "bounds": {"tier": tier, "zoo": len(ZOO), "witnesses_per_schema": NWIT[tier]},
+        "short_lived_pass": {"builds": acc.n["short_lived_builds"],
+                             "validations": acc.n["short_lived_validations"],
+                             "address_reused_by_a_different_schema":
+                                 acc.n["address_reused_by_a_different_schema"]},
     }
     return acc, cov, ["objects whose own special methods raise are not in the zoo",
                       "each error is rendered with the stock Formatter"]
